@@ -316,3 +316,11 @@ PROPS["C07"]["harnesses"] += [
 	for n, t, to in [(2, "quick", None), (3, "quick", None), (4, "quick", 900), (5, "thorough", 2400), (6, "thorough", 3000)]
 ]
 PROPS["C07"]["meta"]["assumptions"].append("Url::has_parent_segment is replaced by a byte-level model inside the get_data harnesses; model == real helper is decided separately (c07_url_parent_segment_*)")
+
+# ------------------------------------------------------------------------------------------ C13 (Engine B)
+def _run_c13(prop, tier):
+	import engine_b
+	return engine_b.run_c13(prop, tier)
+
+
+PROPS["C13"] = {"run": _run_c13}
